@@ -86,6 +86,23 @@ def resolve (w : World) (c : Ctx) (sel : List String) : Except DErr Nat :=
 /-- bindings are keyed by the resolved object -/
 abbrev Bindings := AList Nat (AList String Int)
 
+/-- `skip_unknown`: off, everything unknown, or the unknown names listed (as written) -/
+inductive DSkip where
+  | no
+  | all
+  | names (l : List (List String))
+deriving Repr, Inhabited
+
+def DSkip.covers : DSkip → List String → Bool
+  | .no, _ => false
+  | .all, _ => true
+  | .names l, sel => l.contains sel
+
+def DSkip.truthy : DSkip → Bool
+  | .no => false
+  | .all => true
+  | .names l => !l.isEmpty
+
 inductive DStmt where
   | imp (i : Import)
   | bind (sel : List String) (arg : String) (v : Int)
@@ -93,28 +110,44 @@ inductive DStmt where
       parsed, before the binding itself is looked at; the stored value names the target object and the
       scope the reference is written under (`@scope/ref()`, `scope` indexing a fixed table of scope names) -/
   | bindRef (sel : List String) (arg : String) (ref : List String) (scope : Nat := 0)
+  /-- the header `sel:` of a block (its members follow as `bind` statements) -/
+  | block (sel : List String)
   | unit (body : List DStmt)      -- an included file: its own parse context
 deriving Repr, Inhabited
 
 /-- how a reference to object `r` shows up among the (integer) values of the model -/
 def refValue (r : Nat) (scope : Nat := 0) : Int := -(1000 + 1000 * (scope : Int) + (r : Int))
 
+/-- the placeholder kept for a reference to an unknown name under `skip_unknown` -/
+def placeholderValue : Int := -9000
+
 def bindObj (b : Bindings) (o : Nat) (arg : String) (v : Int) : Bindings :=
   AList.set o (AList.set arg v ((lookup o b).getD [])) b
 
+/-- "known" under dynamic registration: the name resolves through this file's own imports (what was parsed
+    before, in other files, plays no part) -/
+def known (w : World) (c : Ctx) (sel : List String) : Bool :=
+  c.dyn && (match resolve w c sel with | .ok _ => true | .error _ => false)
+
+/-- `_should_skip`: never a known name; an unknown one when `skip_unknown` covers it -/
+def shouldSkip (w : World) (c : Ctx) (sk : DSkip) (sel : List String) : Bool :=
+  !known w c sel && sk.covers sel
+
 mutual
   /-- runs the statements of one file in context `c`; the bindings made before a failure stay -/
-  def runStmts (w : World) (c : Ctx) (b : Bindings) : List DStmt → Bindings × Option DErr
+  def runStmts (w : World) (sk : DSkip) (c : Ctx) (b : Bindings) : List DStmt → Bindings × Option DErr
     | [] => (b, none)
     | s :: rest =>
-      match runStmt w c b s with
-      | (b', c', none) => runStmts w c' b' rest
+      match runStmt w sk c b s with
+      | (b', c', none) => runStmts w sk c' b' rest
       | (b', _, some e) => (b', some e)
-  def runStmt (w : World) (c : Ctx) (b : Bindings) : DStmt → Bindings × Ctx × Option DErr
+  def runStmt (w : World) (sk : DSkip) (c : Ctx) (b : Bindings) : DStmt → Bindings × Ctx × Option DErr
     | .imp i => match processImport w c i with
       | .ok c' => (b, c', none)
+      | .error .importError => if sk.truthy then (b, c, none) else (b, c, some .importError)
       | .error e => (b, c, some e)
     | .bind sel arg v =>
+      if shouldSkip w c sk sel then (b, c, none) else
       if !c.dyn then (b, c, some .valueError) else
       match resolve w c sel with
       | .error e => (b, c, some e)
@@ -122,25 +155,39 @@ mutual
         if ((lookup o w.params).getD []).contains arg then (bindObj b o arg v, c, none)
         else (b, c, some .valueError)
     | .bindRef sel arg ref k =>
-      if !c.dyn then (b, c, some .valueError) else
-      match resolve w c ref with
+      -- the value first: a reference to an unknown name is a placeholder when covered, an error otherwise
+      let val : Except DErr Int :=
+        if shouldSkip w c sk ref then .ok placeholderValue
+        else if !c.dyn then .error .valueError
+        else match resolve w c ref with
+          | .error e => .error e
+          | .ok r => .ok (refValue r k)
+      match val with
       | .error e => (b, c, some e)
-      | .ok r =>
+      | .ok v =>
+        if shouldSkip w c sk sel then (b, c, none) else
+        if !c.dyn then (b, c, some .valueError) else
         match resolve w c sel with
         | .error e => (b, c, some e)
         | .ok o =>
-          if ((lookup o w.params).getD []).contains arg then (bindObj b o arg (refValue r k), c, none)
+          if ((lookup o w.params).getD []).contains arg then (bindObj b o arg v, c, none)
           else (b, c, some .valueError)
+    | .block sel =>
+      if shouldSkip w c sk sel then (b, c, none) else
+      if !c.dyn then (b, c, some .valueError) else
+      match resolve w c sel with
+      | .error e => (b, c, some e)
+      | .ok _ => (b, c, none)
     | .unit body =>
-      let (b', e) := runStmts w {} b body
+      let (b', e) := runStmts w sk {} b body
       (b', c, e)
 end
 
 /-- a sequence of parse calls, each with a fresh context; a failing call ends the run -/
-def runUnits (w : World) (b : Bindings) : List (List DStmt) → Bindings × Option DErr
+def runUnits (w : World) (sk : DSkip) (b : Bindings) : List (List DStmt) → Bindings × Option DErr
   | [] => (b, none)
-  | u :: rest => match runStmts w {} b u with
-    | (b', none) => runUnits w b' rest
+  | u :: rest => match runStmts w sk {} b u with
+    | (b', none) => runUnits w sk b' rest
     | (b', some e) => (b', some e)
 
 end Gin.DynReg
